@@ -280,7 +280,8 @@ def c03():
     return {
         "props_file": "Props/C03.v",
         "theorems": ["C03_bound", "C03_never_merge", "C03_merge_meets", "C03_not_below_is_ge",
-                     "C03_step_grown", "C03_last_grown", "C03_last_grown_labels", "C03_step_grown_labels"],
+                     "C03_step_grown", "C03_last_grown", "C03_last_grown_labels", "C03_step_grown_labels",
+                     "C03_multiround_bound"],
         "suites": [suite_hist.suite_hist_api, suite_merges.suite_merges, suite_hist.suite_seq_refine("C03"),
                    __import__('suite_mr').suite_mr_bound],
         "search": _c03_search,
@@ -377,8 +378,8 @@ def c20():
         "props_file": "Props/C20.v",
         "theorems": ["C20_reader_safe", "C20_monotone", "C20_final_value", "C20_inplace_refuted",
                      "C20_nonvacuous", "C20_two_readers_safe", "C20_two_readers_monotone", "C20_reader_exists_then_open_safe", "C20_reader_exists_then_open_refines",
-                     "C20_published_never_disappears", "C20_source_tie_update_cond"],
-        "model_files": ["Model/Monitor.v", "Gen/GMon.v", "Proofs/GenTieMon.v"],
+                     "C20_published_never_disappears", "C20_source_tie_update_cond", "C20_run_spares_monitor_files"],
+        "model_files": ["Model/Monitor.v", "Gen/GMon.v", "Proofs/GenTieMon.v", "Gen/GMrDel.v", "Proofs/MonitorRun.v"],
         "suites": [suite_monitor.suite_monitor, suite_monitor.suite_monitor_interleave, suite_monitor.suite_monitor_vs_run],
         "search": suite_monitor.search_c20,
         "replay": suite_monitor.replay_c20,
@@ -494,8 +495,9 @@ def c15():
         "props_file": "Props/C15.v",
         "theorems": ["C15_nonempty_refused", "C15_overwrite", "C15_overwrite_never_refuses",
                      "C15_run_config_total", "C15_refine_options", "C15_plan_fits_all_files", "C15_validate_table",
-                     "C15_tree_saved_last", "C15_source_tie_refine_options", "C15_source_tie_plan"],
-        "model_files": ["Model/Cli.v", "Model/ObsCli.v", "Gen/GCli.v", "Proofs/GenTieCli.v"],
+                     "C15_tree_saved_last", "C15_source_tie_refine_options", "C15_source_tie_plan",
+                     "C15_source_tie_validate_out", "C15_source_tie_validate_sites"],
+        "model_files": ["Model/Cli.v", "Model/ObsCli.v", "Gen/GCli.v", "Proofs/GenTieCli.v", "Gen/GCliVd.v", "Proofs/GenTieCliVd.v"],
         "suites": [suite_cli.suite_cli],
         "search": suite_cli.search_c15,
         "replay": suite_cli.replay_c15,
